@@ -15,7 +15,8 @@ import traceback
 
 from . import gen_persist
 from .core import Diverged, Streams, Violation, WatchdogTimeout
-from .ops import capture, execute
+from .ops import capture
+from .ops import execute_strict as execute
 from .persist import do_load, parse_file, self_contained
 from .profiles import PersistProfile, Profile, profile
 from .sim import RunResult
